@@ -183,6 +183,7 @@ theorem isFirstChild_ok (c : Nat) (res : Int) (h29 : res ≤ 29) : ∃ b, isFirs
   · rewrite [if_neg h2, maxRes_eq]
     have hrng : i32InRange (30 - res) = true := by simp only [i32InRange, decide_eq_true_eq]; omega
     simp only [i32Sub, hrng, if_true, Outcome.bind_ok]
+    rewrite [if_neg (by omega)]
     have hn : 2 * (30 - res).toNat % 2 ^ 32 < 64 := by omega
     simp only [u64Shl, hn, if_true, Outcome.bind_ok]
     exact ⟨_, rfl⟩
@@ -196,6 +197,7 @@ theorem getStride_ok (res : Int) (h0 : 0 ≤ res) (h29 : res ≤ 29) :
   · rewrite [if_neg h2, maxRes_eq]
     have hrng : i32InRange (30 - res) = true := by simp only [i32InRange, decide_eq_true_eq]; omega
     simp only [i32Sub, hrng, if_true, Outcome.bind_ok]
+    rewrite [if_neg (by omega)]
     obtain ⟨n, hn⟩ : ∃ n : Nat, 2 * (30 - res).toNat % 2 ^ 32 = n := ⟨_, rfl⟩
     rewrite [hn]
     have hn56 : n ≤ 56 := by omega
